@@ -113,7 +113,7 @@ def _shard(ctx, shard, nshards):
     native.setup()
     if shard < ctx.scale(2, 16):
         sanitizer_campaign(ctx, shard, ctx.scale(150, 1500))
-    for mode, n_examples, size in (('table', ctx.scale(1000, 6000), 700), ('real', ctx.scale(80, 500), 700)):
+    for mode, n_examples, size in (('table', ctx.scale(1000, 20000), 700), ('real', ctx.scale(80, 1500), 700)):
         def factory(mode=mode, n_examples=n_examples, size=size):
             @seed(runner.hseed(ctx, 2 if mode == 'table' else 102))
             @runner.hsettings(n_examples)
